@@ -24,3 +24,6 @@ import extstages  # noqa: E402
 # and properties are this module's. A proof obligation that fails or times out is a weak invariant or a tool limit, never an observation of the
 # code: the stages are advisory (logged, kept in the evidence, never decide).
 PROP["stages"] += extstages.pick("CX5", ["Usage-ref", "Usage-tlaps", "Usage-apalache"], advisory=True, tiers=("thorough",))
+# coverage extension CX6 (lib/ext/CX6.py, spec/OpAMP.tla): the usage tracker driven by the real agent (sampled counters -> reports -> acks,
+# RecordUsage off, six counters). Advisory (thorough): C34's own stages decide the tracker; these replay it inside the agent's loops.
+PROP["stages"] += extstages.pick("CX6", ["usage", "record-usage", "usage-six", "ideal-never-zero"], advisory=True, tiers=("thorough",))
